@@ -352,7 +352,7 @@ impl Group for C17Hmac {
          field shifts; replay under another nonce; client vs server tag); tags and stored values compared byte for byte \
          with the Lean encoders + HMAC-SHA256; non-trivial = the case contains an accepted and a rejected authentication"
     }
-    fn budget(&self, tier: Tier) -> usize { if tier == Tier::Quick { 400 } else { 6000 } }
+    fn budget(&self, tier: Tier) -> usize { if tier == Tier::Quick { 3000 } else { 40_000 } }
     fn corpus(&self) -> Vec<Vec<String>> {
         let s = "07".repeat(32);
         let n = "09".repeat(32);
